@@ -10,6 +10,7 @@ CONSTANTS
   Plus = "logaddexp"
   Times = "add"
   LeafKind = "log"
+  Param = FALSE
   Tag = "sp_logaddexp_scaled"
 INVARIANT Inv_OracleInputs
 INVARIANT Emit
